@@ -307,6 +307,36 @@ def r16e(ctx, run):
                       "read from the table under another key" % (sorted(t for t in vtags if t.startswith(("m:", "param:")))[:8], " / ".join(FRESH)))
 
 
+def r16f(ctx, run):
+    """the comptime arguments evaluate_comptime_args hands back are NEW entries made from this call's argument expressions: what goes into
+    inline_comptime_args is the result of generics_arena.alloc(..) of a value computed here, and the ComptimeArgs returned is built from exactly those
+    entries - never the arguments of the function under inference (self.loc.comptime_args()), whose order and number belong to another header."""
+    import prov
+    G = "hir_ty/src/globals.rs"
+    f = ctx.syn.fn("GlobalInferenceCtx::evaluate_comptime_args", G)
+    helpers = {g.qual.rsplit("::", 1)[-1]: g for g in ctx.syn.fns_in(G) if g.impl_ty and g.impl_ty.startswith("GlobalInferenceCtx") and g.body is not None}
+    P = prov.Prov(f)
+    sites = []
+
+    def on(n, sc):
+        if n.get("k") == "mcall" and n["m"] in ("push", "extend", "insert", "append") and canon(n["r"]) == "self.inline_comptime_args" and n["a"]:
+            sites.append((n["ln"], "stored as a comptime argument of the call", P.tags(n["a"][-1], sc)))
+        if n.get("k") == "call" and canon(n["f"]) == "Ok" and n["a"] and n["a"][0].get("k") == "call" and canon(n["a"][0]["f"]) == "Ok" and n["a"][0]["a"]:
+            sites.append((n["ln"], "returned as the call's comptime arguments", P.tags(n["a"][0]["a"][0], sc)))
+    P.visit(on)
+    if len(sites) < 2:
+        raise LookupError("evaluate_comptime_args: stores / returns found: %d" % len(sites))
+    for ln, what, tags in sites:
+        own = "m:comptime_args" in tags
+        foreign = sorted(t[2:] for t in tags if t.startswith("m:") and t[2:] in helpers and t[2:] not in ("const_data", "get_const", "infer_expr", "expect_match", "is_safe_to_compile"))
+        fresh = "m:alloc" in tags or "m:alloc_many" in tags or "m:.inline_comptime_args" in tags
+        run.check(fresh and not own and not foreign, f.site(ln), "%s: a fresh arena entry of this call" % what, f.qual, "fresh-comptime-args", f.file, ln,
+                  "what is %s (line %d) is not (only) a fresh arena entry made from this call's argument: %s - a callee instantiated with another header's arguments reads them "
+                  "at ITS parameter positions (`inner(B, A)` forwarded as (A, B))"
+                  % (what, ln, "it comes from the comptime arguments of the function under inference (self.loc.comptime_args())" if own else
+                     ("it is supplied by " + ", ".join(foreign)) if foreign else "sources: %s" % sorted(t for t in tags if t.startswith("m:"))[:6]))
+
+
 def _reuse(modname, fname):
     def f(ctx, run):
         mod = __import__(modname)
@@ -321,6 +351,7 @@ def rules(ctx):
         Rule("R16.c", "no key of a per-body table is computed from a location whose comptime arguments were erased (to_naive)", 40, r16c),
         Rule("R16.d", "the comptime arguments bound to a call are the ones evaluated for that call (no other supplier)", 3, r16d),
         Rule("R16.e", "a location's function id is its own: the function table is asked and written under the location in hand only, with a function declared for it", 7, r16e),
+        Rule("R16.f", "evaluate_comptime_args stores and returns fresh arena entries made from this call's arguments, never the enclosing instantiation's own arguments", 2, r16f),
         Rule("R15.f", "a comptime parameter evaluates to the comptime argument at its comptime_idx (shared with C15)", 2, _reuse("c15", "r15f")),
         Rule("R27.e", "every Mangle impl evaluated down to the parts list: the generic id of an instantiation is present on every branch (shared with C27)", 20, _reuse("c27", "r27e")),
     ]
